@@ -352,7 +352,26 @@ func braw(op *opSpec, rb *big.Int) string {
 
 // evalCase evaluates one lattice point of one operation in every form. alias requests the additional
 // a.Op(a) runs (only meaningful when both operands are of the same kind and value).
+// evalCase evaluates one lattice point. The calls into the library are wrapped individually (a panic of the library
+// is an outcome); a panic that escapes anyway - the library handed back a value the comparison code cannot even
+// look at, e.g. a decimal without a number inside - is reported as a violation of that operation, not as a harness
+// crash.
 func (h *H) evalCase(op *opSpec, ra, rb *big.Int, alias bool) {
+	defer func() {
+		if r := recover(); r != nil {
+			b := ""
+			if rb != nil {
+				b = rb.String()
+			}
+			h.fail(op.grp+".unusable-result", op.name+"|unusable|", "unusable-result",
+				fmt.Sprintf("op=%s a=%s b=%s: examining the operands/result panicked: %v", op.name, fmtDec(ra, op.ak.prec()), b, r),
+				replayCase{Op: op.name, A: ra.String(), B: b})
+		}
+	}()
+	h.evalCaseInner(op, ra, rb, alias)
+}
+
+func (h *H) evalCaseInner(op *opSpec, ra, rb *big.Int, alias bool) {
 	if h.countOn {
 		h.r.States++
 	}
